@@ -122,10 +122,17 @@ def run_case(c, d):
 def main():
     payload = json.load(sys.stdin)
     res = []
-    for c in payload['cases']:
-        with tempfile.TemporaryDirectory(prefix='c18-', dir=os.environ.get('LPVERIF_SCRATCH', '/var/tmp')) as d:
+    import shutil
+    # one directory for all the cases of this process: the same paths hold another tree each time (a project that changes between two lookups of
+    # one session) — an answer remembered from an earlier tree must not come back
+    with tempfile.TemporaryDirectory(prefix='c18-', dir=os.environ.get('LPVERIF_SCRATCH', '/var/tmp')) as d:
+        d = os.path.realpath(d)
+        for c in payload['cases']:
+            for n in os.listdir(d):
+                p = os.path.join(d, n)
+                shutil.rmtree(p) if os.path.isdir(p) and not os.path.islink(p) else os.remove(p)
             try:
-                res.append(run_case(c, os.path.realpath(d)))
+                res.append(run_case(c, d))
             except Exception:
                 import traceback
                 res.append({'harness_error': traceback.format_exc()})
